@@ -119,6 +119,19 @@ macro_rules! op {
     };
 }
 
+/// Display that hands its text to the formatter one `char` at a time (reaches `write_char` of
+/// whatever `fmt::Write` an implementation formats into)
+struct Chars<'a>(&'a str);
+impl std::fmt::Display for Chars<'_> {
+    fn fmt(&self, f: &mut std::fmt::Formatter<'_>) -> std::fmt::Result {
+        use std::fmt::Write;
+        for c in self.0.chars() {
+            f.write_char(c)?;
+        }
+        Ok(())
+    }
+}
+
 fn opt_string(p: Option<Vec<u8>>) -> Vec<i64> {
     match p {
         Some(s) => some_bytes(&s),
@@ -154,6 +167,7 @@ fn pair(i: usize, a: &[u8], b: &[u8], sa: &Slot, sb: &Slot) -> Value {
         // the same text handed over in two pieces, cut at every character boundary: the answer is a
         // function of the text, not of how the formatting machinery fragments it.  Reported: the
         // first answer that differs from the one-piece answer (else the one-piece answer).
+        op!(o, i, "path_join_fmt_chars", res(guarded(|| ua.path_join_fmt(format_args!("{}", Chars(s)))), |s| some_bytes(s.as_slice())));
         op!(o, i, "path_join_fmt_split", {
             let whole = guarded(|| ua.path_join_fmt(format_args!("{s}")).as_slice().to_vec());
             let mut rep = whole.clone();
@@ -206,6 +220,7 @@ fn ctor(i: usize, b: &[u8], sb: &Slot) -> Value {
         op!(o, i, "string_try_from_string", string_res(guarded(|| UnixString::try_from_string(s.to_string()))));
         op!(o, i, "string_from_str", string_res(guarded(|| s.parse::<UnixString>())));
         op!(o, i, "from_format", res(guarded(|| UnixString::from_format(format_args!("{s}"))), |s| some_bytes(s.as_slice())));
+        op!(o, i, "from_format_chars", res(guarded(|| UnixString::from_format(format_args!("{}", Chars(s)))), |s| some_bytes(s.as_slice())));
         op!(o, i, "from_format_split", {
             let whole = guarded(|| UnixString::from_format(format_args!("{s}")).as_slice().to_vec());
             let mut rep = whole.clone();
@@ -279,6 +294,34 @@ fn lits() {
             }
         };
     }
+    // format strings WITH arguments that reach write_char / padding: char arguments, fill
+    // characters, {:?} escapes; the expected text is std's rendering of the same format
+    macro_rules! fmt_args_case {
+        ($($arg:tt)*) => {{
+            let text = format!($($arg)*);
+            out.ev(&json!({"op": "from_format", "a": [], "b": text.as_bytes(),
+                           "out": res(guarded(|| UnixString::from_format(format_args!($($arg)*))), |s| some_bytes(s.as_slice()))}));
+            for base in ["", "a", "a/", "/"] {
+                let mut raw = base.as_bytes().to_vec();
+                raw.push(0);
+                let ub = unsafe { UnixStr::from_bytes_unchecked(&raw) };
+                out.ev(&json!({"op": "path_join_fmt", "a": base.as_bytes(), "b": text.as_bytes(),
+                               "out": res(guarded(|| ub.path_join_fmt(format_args!($($arg)*))), |s| some_bytes(s.as_slice()))}));
+            }
+        }};
+    }
+    fmt_args_case!("/tmp/{}/f", '\u{e9}');
+    fmt_args_case!("/tmp/{}", '\u{e9}');
+    fmt_args_case!("{}", '\u{65e5}');
+    fmt_args_case!("{}{}", '\u{1F600}', 'a');
+    fmt_args_case!("{:?}", '\u{e9}');
+    fmt_args_case!("{:\u{e9}<5}", "ab");
+    fmt_args_case!("{:\u{2192}^7}", 1);
+    fmt_args_case!("{:>3}", '\u{1F600}');
+    fmt_args_case!("{:\u{ff}>4}/{}", 7, "x");
+    fmt_args_case!("{}/{}", "dir", "name");
+    fmt_args_case!("{}/{}", "dir/", "/name");
+    fmt_args_case!("{a}{b}{a}", a = "/", b = "x");
     fmt_lit!("");
     fmt_lit!("a");
     fmt_lit!("/a");
@@ -322,6 +365,35 @@ fn main() {
             let nb = sb.put(&b);
             set_cur(i, "find_buf");
             out.ev(&json!({"i": i, "find_buf": res(guarded(|| ua.find_buf(nb)), opt_idx)}));
+            out.flush();
+        }
+        return;
+    }
+    if args[1] == "mstr" {
+        // match_up_to_str with texts that may contain NUL (a &str may); self against the guard page
+        unsafe {
+            libc::signal(libc::SIGSEGV, on_segv as usize);
+            libc::signal(libc::SIGBUS, on_segv as usize);
+            libc::signal(libc::SIGABRT, on_segv as usize);
+            libc::signal(libc::SIGILL, on_segv as usize);
+            libc::signal(libc::SIGVTALRM, on_vtalrm as usize);
+        }
+        let skip: usize = args.get(3).map_or(0, |s| s.parse().unwrap());
+        let f = std::io::BufReader::new(std::fs::File::open(&args[2]).unwrap());
+        let (sa, sb) = (Slot::new(), Slot::new());
+        let mut out = Out::new();
+        for (i, line) in f.lines().enumerate() {
+            if i < skip {
+                continue;
+            }
+            let v: Value = serde_json::from_str(&line.unwrap()).unwrap();
+            let (a, b) = (bytes_of(&v["a"]), bytes_of(&v["b"]));
+            let mut ra = a.clone();
+            ra.push(0);
+            let ua = unsafe { UnixStr::from_bytes_unchecked(sa.put(&ra)) };
+            let Ok(text) = std::str::from_utf8(sb.put(&b)) else { continue };
+            set_cur(i, "match_up_to_str");
+            out.ev(&json!({"i": i, "match_up_to_str": res(guarded(|| ua.match_up_to_str(text)), |n| vec![1, n as i64])}));
             out.flush();
         }
         return;
